@@ -2029,6 +2029,9 @@ func (ctx *RenderContext) toBool(val interface{}) bool {
 		return rv.String() != ""
 	case reflect.Array, reflect.Slice, reflect.Map:
 		return rv.Len() > 0
+	case reflect.Ptr, reflect.Interface:
+		// a typed nil pointer is null like an untyped nil
+		return !rv.IsNil()
 	}
 
 	// Default to true for other non-nil values
